@@ -11,6 +11,14 @@ CLAIMS = {
   "text": "Theorem C01_payload_fidelity (closed under the global context): for all five formats and every content list, oracle, umask and mtime, the payload written by the Gallina transcription of the five packagers' payload writers for the plan computed by the planning model states exactly what the plan denotes (paths exact and unique; files: 12-bit mode, owner, group, mtime, source bytes; directories: mode, owner, group; symlinks: target; rpm ghosts header-only, no implied directories). Tie: every run packages generated YAML configurations through the real Parse/Get/WithDefaults/Package pipeline in all five formats, decodes the packages with independent readers, compares the decoded payload entry by entry with the extracted model and evaluates the extracted checker check_C01 on the decoded payload.",
   "note": "Trusted: Coq kernel, extraction, OCaml driver, Go harness incl. the decoders (own ar/rpm/cpio readers, stdlib tar/gzip, xz, zstd) and SHA-256 of decoded bytes. Envelope: modes below 0o10000, no non-directory entry at '/', WalkDir order. Compressors, tar/cpio byte encoders and chglog are modelled by their decoded effect, not verified. Directory and symlink mtimes are not part of C01.",
  },
+ "C08": {
+  "text": "Theorems (closed): conffiles lists a path iff a config* entry is planned at it (C08_conffiles_iff_declared, any plan with valid keys); every rpm header entry carries exactly the flag bits its declared type demands, ghosts and only ghosts have no payload, ghost default mode 0644 (C08_rpm_flags_exact, all 13 prepared types by computation lifted over the type enumeration); glob expansion inherits the config type. Tie: the exhaustive (14 entry types x 6 packager tags) matrix and config-glob expansions packaged in all five formats from one parsed configuration in rotating order, decoded conffiles / rpm FILEFLAGS / .PKGINFO backup lines compared with the extracted model and judged by the extracted checker check_C08.",
+  "note": "Trusted: Coq kernel, extraction, OCaml driver, Go harness and decoders. apk has no configuration-file notion and is only checked for absence of rpm-only entries (through C01).",
+ },
+ "C09": {
+  "text": "Theorems (closed): per-format event->slot tables are injective both ways; a slot is populated with exactly the configured bytes iff its event is configured; the deb/ipk/apk/archlinux packager models embed every script verbatim for all byte strings (C09_verbatim_all_bytes); rpm verbatim for non-empty NUL-free scripts (C09_rpm_verbatim_partial) and refuted otherwise (C09_rpm_refuted, known findings C09-K1/K2). Tie: every subset of every format's slots (exhaustive) with pairwise distinct binary bytes, other formats' slots populated, each configuration also run once per missing script file and again intact; decoded control members / scriptlet tags / .INSTALL compared with the extracted model and checker check_C09.",
+  "note": "Trusted: Coq kernel, extraction, OCaml driver, Go harness and decoders. The .INSTALL member is compared as a whole with the rendering (function wrappers in sorted order); scriptlet interpreter tags (/bin/sh) are not checked.",
+ },
 }
 TECH = "Rocq proof over hand-written Gallina model + extraction-based correspondence check against the Go implementation"
 props = [json.loads(l) for l in open(V + "/properties.jsonl")]
